@@ -28,6 +28,13 @@ fn main() {
         i += 1;
     }
     util::install_panic_hook();
+    if prop == "C14-partB" {
+        // helper of C14's thorough tier (the shards of the ThreadSanitizer build)
+        let n = args.get(2).and_then(|s| s.parse().ok()).unwrap_or(10);
+        let s = args.get(3).and_then(|s| s.parse().ok()).unwrap_or(1);
+        let out = args.get(4).cloned().unwrap_or_else(|| "/dev/null".into());
+        std::process::exit(props::c14::run_part_b_only(n, s, &out));
+    }
     let tier = Tier::from_env(&tier_name);
     let report = Report::new(&prop, tier.name(), seed);
 
@@ -61,6 +68,14 @@ fn main() {
         "C14" => props::c14::run(&report, &tier),
         "C15" => props::c15::run(&report, &tier),
         "C16" => props::c16::run(&report, &tier),
+        "lab6" => {
+            props::lab6();
+            return;
+        }
+        "lab7" => {
+            props::lab7();
+            return;
+        }
         "lab5" => {
             props::lab5();
             return;
